@@ -8,6 +8,7 @@ CONSTANTS
  BrkThr = 3
  BrkSleep = 3
  ModelTaskBound = 3
+ MaxRuns = 2
 INVARIANT NoContractViolation
 INVARIANT BoundedTasks
 INVARIANT AllClosed
